@@ -359,8 +359,7 @@ Definition for_ref (init : option stmt) (c : option bexp) (post : option stmt) (
 
 (* ------------------------------------------------------------------ switch *)
 
-(** The body of a clause as a block: [fallthrough] is a last statement that does nothing. *)
-Definition case_body (body : list stmt) (ft : bool) : list stmt := if ft then body ++ [SBlock []] else body.
+(** The body of a clause is the block [Syntax.case_body]: the fallthrough node is its last statement. *)
 
 (** body.start of a clause at path [pc] of the switch at [sw] (clauses[i].lastChild().start). *)
 Definition clause_body_start (c : stmt) (sw pc : path) : path :=
